@@ -508,6 +508,125 @@ func TestGenC11(t *testing.T) {
 			q.sample(fmt.Sprintf("scenario %d: %v", sc, firstN(lines, 16)))
 		}
 	}
+	// the first pairing is interrupted at its last message: the relay loses the client's third handshake message
+	// (every copy of the gbn DATA packet that carries it) - a relay failure during the very first connection. The
+	// client's handshake has returned success, the server's fails. Both close; the relay works again; Accept and
+	// Dial must hand out a fresh working connection (both still at the pass-phrase rendezvous, or both at the new one)
+	for k := 0; k < 2; k++ {
+		rr := r.sub(7000 + k)
+		var key, detail string
+		pan := bubble(t, func(t *testing.T) {
+			relay := newFakeRelay()
+			ctx, cancel := context.WithCancel(context.Background())
+			defer cancel()
+			entropy := rr.bytes(14)
+			cdC := mailbox.NewConnData(keyECDH(privFromRng(rr)), nil, entropy, nil, nil, nil)
+			cdS := mailbox.NewConnData(keyECDH(privFromRng(rr)), nil, entropy, []byte("macaroon"), nil, nil)
+			srv, err1 := mailbox.VerifNewServer("relay", cdS, relay, func(mailbox.ServerStatus) {})
+			cli, err2 := mailbox.VerifNewClient(ctx, "relay", cdC, relay)
+			if err1 != nil || err2 != nil {
+				key, detail = "c11:setup", fmt.Sprintf("%v %v", err1, err2)
+				return
+			}
+			sidS, _ := cdS.SID()
+			c2s := string(func() []byte { x := mailbox.GetSID(sidS, false); return x[:] }())
+			relay.mu.Lock()
+			relay.faultMsg = func(stream string, msg []byte) string {
+				// client -> server, gbn DATA (type 2), not a ping, sequence number 1: act 3 (act 1 is sequence 0)
+				if stream == c2s && len(msg) >= 4 && msg[0] == 2 && msg[3] == 0 && msg[1] == 1 {
+					return "drop"
+				}
+				return "deliver"
+			}
+			relay.mu.Unlock()
+			wait := func(done chan struct{}, steps int) bool {
+				for i := 0; i < steps; i++ {
+					select {
+					case <-done:
+						return true
+					default:
+						time.Sleep(250 * time.Millisecond)
+						synctest.Wait()
+					}
+				}
+				return false
+			}
+			connect := func() (sc, cc net.Conn) {
+				var wg sync.WaitGroup
+				wg.Add(2)
+				go func() { defer wg.Done(); sc, _ = srv.Accept() }()
+				go func() { defer wg.Done(); time.Sleep(100 * time.Millisecond); cc, _ = cli.Dial(ctx, "") }()
+				done := make(chan struct{})
+				go func() { wg.Wait(); close(done) }()
+				if !wait(done, 400) {
+					return nil, nil
+				}
+				return sc, cc
+			}
+			credS, credC := mailbox.NewNoiseGrpcConn(cdS), mailbox.NewNoiseGrpcConn(cdC)
+			shake := func(sc, cc net.Conn) (nS, nC net.Conn, eS, eC error) {
+				var wg sync.WaitGroup
+				wg.Add(2)
+				go func() { defer wg.Done(); nS, _, eS = credS.ServerHandshake(sc) }()
+				go func() { defer wg.Done(); nC, _, eC = credC.ClientHandshake(ctx, "", cc) }()
+				done := make(chan struct{})
+				go func() { wg.Wait(); close(done) }()
+				if !wait(done, 200) {
+					return nil, nil, fmt.Errorf("still running after 50 s"), fmt.Errorf("still running after 50 s")
+				}
+				return
+			}
+			sc, cc := connect()
+			if sc == nil || cc == nil {
+				key, detail = "c11:setup", "first connection did not come about"
+				return
+			}
+			_, _, eS, eC := shake(sc, cc)
+			q.stat("pairing_interrupted_at_act3", 1)
+			if eS == nil || eC != nil {
+				// not the situation this scenario is about (the message got through, or the client noticed)
+				q.stat("pairing_interrupted_at_act3_other_outcome", 1)
+				_ = sc.Close()
+				_ = cc.Close()
+				_ = srv.Close()
+				return
+			}
+			clientHasKey, serverHasKey := cdC.RemoteKey() != nil, cdS.RemoteKey() != nil
+			_ = cc.Close()
+			_ = sc.Close()
+			synctest.Wait()
+			relay.mu.Lock()
+			relay.faultMsg = nil
+			relay.mu.Unlock()
+			sc2, cc2 := connect()
+			var e2S, e2C error = fmt.Errorf("no connection"), fmt.Errorf("no connection")
+			if sc2 != nil && cc2 != nil {
+				_, _, e2S, e2C = shake(sc2, cc2)
+			}
+			if sc2 == nil || cc2 == nil || e2S != nil || e2C != nil {
+				sC, _ := cdC.SID()
+				sS, _ := cdS.SID()
+				key = fmt.Sprintf("c11:no-fresh-connection:after-first-pairing-lost-its-last-message:client-has-server-key=%v,server-has-client-key=%v", clientHasKey, serverHasKey)
+				detail = fmt.Sprintf("first pairing: the relay lost the client's third handshake message; client handshake: ok, server handshake: %v; both closed, relay working again; second attempt within 100 s: Accept returned %v, Dial returned %v, handshakes %v / %v; the client now waits at %x.. with pattern %s, the server at %x.. with pattern %s",
+					eS, sc2 != nil, cc2 != nil, e2S, e2C, sC[:4], cdC.HandshakePattern().Name, sS[:4], cdS.HandshakePattern().Name)
+			}
+			for _, c := range []net.Conn{sc2, cc2} {
+				if c != nil {
+					_ = c.Close()
+				}
+			}
+			_ = srv.Close()
+			cancel()
+			synctest.Wait()
+			time.Sleep(12 * time.Second)
+			synctest.Wait()
+		})
+		if pan != "" {
+			q.fail("c11:bubble-panic", fmt.Sprintf("pairing interrupted at act 3: %s", truncate(pan, 400)))
+		}
+		q.check(key == "", key, func() string { return detail })
+		q.stat("distinct_nontrivial", 1)
+	}
 	// real-time session scenarios (relay incidents; see c11_rt_test.go)
 	rtSessionCases(q, r)
 }
